@@ -10,9 +10,13 @@ Lemma gen_accept_guards :
   In "not self._is_overlap(new_point, current_node)" accept_conjuncts /\
   In "fulfill_geometrical_constraints(new_point, self.molecule.nodes[current_node])" accept_conjuncts /\
   In "self.checks_milestones(current_node, new_point, step_length)" accept_conjuncts /\
-  In "is_restricted(new_point, last_point, self.molecule.nodes[current_node])" accept_conjuncts /\
+  In "is_restricted(step_end, last_point, self.molecule.nodes[current_node])" accept_conjuncts /\
   accept_conjuncts_call = "self.nonbond_matrix.add_positions(new_point, self.mol_idx, current_node, start=False)".
 Proof. vm_compute. intuition. Qed.
+
+(* the direction test looks at the step itself (the new point is wrapped into the box) *)
+Lemma gen_step_end : step_end_def = "last_point + vector_bundle[index] * step_length".
+Proof. reflexivity. Qed.
 
 Lemma gen_first_guards :
   In "not self._is_overlap(self.start, first_node)" first_accept_conjuncts /\
